@@ -151,6 +151,12 @@ func c05Run(c *fw.Ctx, idx int) {
 	g := c05Model(r)
 	c.SetInput(map[string]any{"geometry": g.String()})
 	t := spareStored(c, g, g.BuildFlat())
+	if r.Chance(1, 4) {
+		// a geometry that carries an SRID (as everything read from PostGIS does):
+		// WKT has no place for it, and the text is the same WKT
+		geom.SetSRID(t, []int{4326, 1, 3857, 1 << 31}[r.Intn(4)])
+		c.Count("geometry_with_an_SRID_set")
+	}
 	var text string
 	var err error
 	early := ""
